@@ -27,6 +27,7 @@ RULES = {
              'Updated (never the old state passed through, which would keep Deleted on a key that was just set)',
     'C01.h': 'a mutation command that answers success did mutate: in the Set / Increment / Remove arms a locally built success reply '
              'is dominated by the call of the mutator (or, on a non-primary node, of the forwarder)',
+    'C01.i': 'the request entry hands the command text to the parser with nothing but its line end removed (no trim / trim_end / split_whitespace between the transport and Request::parse): the value is the tail of the line',
 }
 
 VALUE_MAP = 'std::collections::HashMap::<std::string::String, nundb::bo::Value>::'
